@@ -20,10 +20,21 @@ Theorem delete_lines_local cl s e :
   (s <= e)%nat -> (e <= length cl)%nat ->
   let '(rest, reg) := delete_lines cl s e in
   exists pre mid post,
-    concat cl = pre ++ mid ++ post /\ concat rest = pre ++ post /\ reg = RLine mid.
+    concat cl = pre ++ mid ++ post /\ concat rest = pre ++ post /\ reg = RLine (with_newline mid).
 Proof.
   intros Hse He. cbn. exists (concat (firstn s cl)), (concat (sub_clusters cl s e)), (concat (skipn e cl)).
   repeat split; [now apply slice_fresh_contiguous|now rewrite concat_app].
+Qed.
+
+(** the line break a linewise register carries is the text's own, except for the unterminated last line *)
+Lemma with_newline_spec t :
+  with_newline t = t \/ (with_newline t = t ++ [10] /\ t <> [] /\ forall t', t <> t' ++ [10]).
+Proof.
+  unfold with_newline. destruct (rev t) as [|c r] eqn:E.
+  { left. apply (f_equal (@rev _)) in E. rewrite rev_involutive in E. now subst. }
+  destruct (N.eqb_spec c 10) as [->|Hne]; [now left|]. right. split; [reflexivity|]. split.
+  - intros ->. discriminate.
+  - intros t' ->. rewrite rev_app_distr in E. cbn in E. injection E as E1 _. congruence.
 Qed.
 
 (** yank: the text is untouched, the register holds exactly the covered span *)
